@@ -441,6 +441,10 @@ func oracleC18(op string, a []string) string {
 		if got := dropMccMnc(showSubLists(back)); got != want {
 			return fmt.Sprintf("FAIL round trip: decoded %s, built %s (lengths from content)", got, want)
 		}
+		otherL := upc.UEPolicySectionManagementListContent{{PlmnDigit1: 0x99, PlmnDigit2: 0xf9, PlmnDigit3: 0x99}}
+		if r := staleResult(func() []byte { x, _ := l.MarshalBinary(); return x }, func() []byte { x, _ := otherL.MarshalBinary(); return x }); r != "" {
+			return "FAIL list MarshalBinary: " + r
+		}
 		// the decoded MCC / MNC are the digits of the PLMN octets in TS 24.008 order
 		for i, s := range back {
 			mcc, mnc, _ := specPlmnText([]byte{l[i].PlmnDigit1, l[i].PlmnDigit2, l[i].PlmnDigit3})
